@@ -32,6 +32,10 @@ NOT_ACCEPTING = {
     ("PMap", "kwargs"): "keyword arguments are not expressible in the expression syntax of the harness",
     ("PScalar", "method"): "keyword argument of PMap; a method name",
 }
+# constructor options deliberately left at their default, with the reason
+OPTIONS_NOT_VARIED = {
+    "PGlobals.default": "returned only when the global is unset; the globals are set in these cases",
+}
 # how often a parameter is used: "step" = once per output; "ctor+step" = once at construction and once per output;
 # "block" = once per block (law given by BLOCK_LAW); "atmost1" = at most once per output (irregular by design)
 SCHEDULE = {
@@ -118,21 +122,21 @@ TEMPLATES = {
     "PSequence": lambda r: [("sequence", ints(r, r.randint(2, 3))), ("repeats", r.randint(1, 4))],
     "PSeries": lambda r: [("start", num(r)), ("step", num(r, -3, 4)), ("length", r.randint(3, 20))],
     "PRange": lambda r: [("start", r.randint(-2, 2)), ("end", r.randint(6, 15)), ("step", r.randint(1, 3))],
-    "PGeom": lambda r: [("start", r.randint(1, 3)), ("multiply", r.randint(-2, 3))],
+    "PGeom": lambda r: [("start", r.randint(1, 3)), ("multiply", r.randint(-2, 3)), ("length", r.choice([SYS_MAXSIZE, SYS_MAXSIZE, 4, 9]))],
     "PImpulse": lambda r: [("period", r.randint(1, 5))],
     "PCreep": lambda r: [("pattern", series(r)), ("length", r.randint(1, 4)), ("creep", r.randint(1, 2)),
                          ("repeats", r.randint(1, 3)), ("prob", r.choice([0, 1, 2]))],
     "PStutter": lambda r: [("pattern", series(r)), ("count", r.randint(1, 4))],
     "PSubsequence": lambda r: [("pattern", series(r)), ("offset", r.randint(0, 4)), ("length", r.randint(4, 14))],
-    "PInterpolate": lambda r: [("pattern", E("PSequence", ints(r, 4))), ("steps", r.randint(1, 4))],
+    "PInterpolate": lambda r: [("pattern", E("PSequence", ints(r, 4))), ("steps", r.randint(1, 4)), ("interpolation", r.choice(["linear", "linear", "cosine"]))],
     "PCollapse": lambda r: [("input", num(r))], "PNoRepeats": lambda r: [("input", r.randint(-50, 50))],
-    "PEuclidean": lambda r: [("mod", r.randint(1, 4)), ("length", r.randint(5, 9))],
+    "PEuclidean": lambda r: [("mod", r.randint(1, 4)), ("length", r.randint(5, 9)), ("phase", r.choice([0, 0, 1, 2, 3]))],
     "PSequenceAction": lambda r: [("list", ints(r, 3)), ("fn", FN("rot")), ("repeats", r.randint(1, 4))],
     "PWhite": lambda r: [("min", r.choice([r.randint(0, 3), flt(r, 0, 3)])), ("max", r.randint(5, 40)), ("length", r.choice([0, 0, r.randint(3, 9)]))],
     "PBrown": lambda r: [("initial_value", r.randint(-2, 2)), ("step", r.choice([r.randint(1, 3), flt(r, 1, 3)])),
                          ("min", r.randint(-3, -1)), ("max", r.randint(1, 3))],
     "PCoin": lambda r: [("probability", r.randint(0, 8) / 8.0), ("regular", r.random() < 0.5)],
-    "PRandomWalk": lambda r: [("values", ints(r, 5)), ("min", r.randint(0, 1)), ("max", r.randint(2, 3))],
+    "PRandomWalk": lambda r: [("values", ints(r, 5)), ("min", r.randint(0, 1)), ("max", r.randint(2, 3)), ("wrap", r.random() < 0.5)],
     "PChoice": lambda r: [("values", ints(r, 4)), ("weights", r.choice([None, [r.randint(1, 4) / 4.0 for _ in range(4)]]))],
     "PSample": lambda r: [("values", ints(r, 5)), ("count", r.randint(1, 3)), ("weights", r.choice([None, [r.randint(1, 4) / 4.0 for _ in range(5)]]))],
     "PShuffle": lambda r: [("values", ints(r, 3)), ("repeats", r.randint(1, 4))],
@@ -197,11 +201,14 @@ def ref_range(a, use):
 
 
 def ref_geom(a, use):
-    v = a["start"]
+    v, count = a["start"], 0
     while True:
+        if count >= a.get("length", SYS_MAXSIZE):
+            yield STOP                  # (the multiplier is not read once the length is reached)
+            continue
         m = use("multiply")
         yield v
-        v *= m
+        v, count = v * m, count + 1
 
 
 def ref_impulse(a, use):
@@ -448,6 +455,14 @@ def registry_checks(run, pairs, outside, view):
                       % (k[0], k[1], i["file"]),
             "python": "# class %s in isobar/pattern/%s; add a template to harness/c12.py TEMPLATES or an exclusion with its reason" % (k[0], i["file"])},
             found_input=False)
+    # every constructor OPTION (mode flag, enum, bound) of a judged class must be varied by its template: a pair is judged under each
+    # documented value of the flags, not under the defaults only
+    unvaried = sorted("%s.%s" % (c, p) for (c, p), i in pairs.items() if c in TEMPLATES and i["kind"] == "pos" and any(k[0] == c for k in judged)
+                      and not any(q == p for q, _ in TEMPLATES[c](random.Random(0))) and "%s.%s" % (c, p) not in OPTIONS_NOT_VARIED)
+    if unvaried:
+        raise CheckError("constructor options that no template varies (add them to the template or to OPTIONS_NOT_VARIED with a reason): %s" % unvaried)
+    run.cov["constructor_options_varied"] = sorted("%s.%s" % (c, q) for c in TEMPLATES for q, _ in TEMPLATES[c](random.Random(0))
+                                                   if (c, q) in pairs and pairs[(c, q)]["mode"] in ("raw", "unused") and any(k[0] == c for k in judged))
     stale = sorted(k for k in NOT_ACCEPTING if k not in accepting)
     if stale:
         raise CheckError("exclusions that the source no longer justifies: %s" % stale)
